@@ -4,9 +4,13 @@
    Model: Model/Sync.v.  A notes ref is a node of a DAG kept in one append-only store; each of
    the n clones has refs/notes/ai (local) and refs/notes/ai-remote/origin (tracking); the remote
    has its tip.  Transitions: Commit c k v, FetchTracking c, MergeLocal c, PushRef c
-   (non-forced, silently skipped when rejected).  FetchNotes c = [FetchTracking c; MergeLocal c],
-   PushNotes c = [FetchTracking c; MergeLocal c; PushRef c]; the sub-steps are separate
-   transitions, so every interleaving with other clones' steps is a schedule.
+   (non-forced, silently skipped when rejected).  FetchNotes c = [FetchTracking c; TestLocal c;
+   MergeLocal c], PushNotes c = FetchNotes c ++ [PushRef c]; the sub-steps are separate
+   transitions, so every interleaving with other clones' steps AND with the same clone's own
+   commits is a schedule.  The existence test of refs/notes/ai is its own transition TestLocal c
+   (result kept in pending); MergeLocal acts on that result (copy_ref = update-ref overwrites).
+   The order of FetchTracking / TestLocal inside PushNotes / FetchNotes is read from the source
+   (Gen/GenSync.v): today [FetchTracking; TestLocal; MergeLocal; PushRef].
 
    Full-strength statement (property C10): for ANY schedule, once every clone has pushed and then
    fetched, all holders have, for every commit, the note its author wrote; no push or fetch
@@ -20,9 +24,15 @@
      both clones run all three sub-steps of a push and then fetch, the second notes push is
      rejected as non-fast-forward and skipped without any error, and clone 0 (and the remote)
      never see clone 1's note until clone 1 pushes again.  Known class: Known_C10 (some PushRef c
-     comes after another clone's PushRef which came after c's latest FetchTracking). *)
+     comes after another clone's PushRef which came after c's latest FetchTracking).
+   * Keys of a CLONE never disappear and convergence hold for schedules outside the copy window
+     (no_commit_in_copy_window: no commit of clone c between an existence test of c that saw no
+     notes ref and the copy acting on it -- in the code two consecutive git processes, show-ref
+     and update-ref).  Inside it the note is lost for good: C10_copy_window_refuted (class K2).
+     A commit of the same clone while the sync's fetch is in flight is OUTSIDE the window in the
+     code's order: C10_commit_during_sync_safe (false when the test is hoisted above the fetch). *)
 From Coq Require Import List NArith Bool.
-From Verif Require Import Base.Str Model.Sync Proofs.SyncProofs.
+From Verif Require Import Base.Str Gen.GenSync Model.Sync Proofs.SyncProofs.
 Import ListNotations.
 
 (* whatever any ref (remote tip, any clone's notes ref or tracking ref) holds for commit k was
@@ -33,7 +43,7 @@ Theorem C10_no_loss : forall (n : nat) (sched : list step),
      lookup k (map_of (store_of (run (init n) sched)) o) = Some v -> written n sched k v) /\
   (forall pre post k, sched = pre ++ post ->
      has_key k (remote_map (run (init n) pre)) = true -> has_key k (remote_map (run (init n) sched)) = true) /\
-  (forall pre post c k, sched = pre ++ post ->
+  (no_commit_in_copy_window n sched = true -> forall pre post c k, sched = pre ++ post ->
      has_key k (local_map (run (init n) pre) c) = true -> has_key k (local_map (run (init n) sched) c) = true) /\
   fuel_out (run (init n) sched) = false.
 Proof. exact no_loss. Qed.
@@ -49,7 +59,8 @@ Print Assumptions C10_single_writer_values.
    the remote tip is c's notes tip, it has every key c had and every key the remote had *)
 Theorem C10_push_atomic_succeeds : forall (n : nat) (pre : list step) (c : nat), (c < n)%nat ->
   remote (run (init n) (pre ++ PushNotes c)) = local_of (run (init n) (pre ++ PushNotes c)) c /\
-  sub_keys (local_map (run (init n) pre) c) (remote_map (run (init n) (pre ++ PushNotes c))) /\
+  (no_commit_in_copy_window n pre = true ->
+   sub_keys (local_map (run (init n) pre) c) (remote_map (run (init n) (pre ++ PushNotes c)))) /\
   sub_keys (remote_map (run (init n) pre)) (remote_map (run (init n) (pre ++ PushNotes c))).
 Proof. exact push_atomic_succeeds. Qed.
 Print Assumptions C10_push_atomic_succeeds.
@@ -59,7 +70,8 @@ Print Assumptions C10_push_atomic_succeeds.
    rejected -- a rejection needs another clone's push between this clone's fetch and push *)
 Theorem C10_rejected_only_when_pushes_overlap : forall (n : nat) (pre mid1 mid2 : list step) (c : nat),
   (c < n)%nat -> no_push mid1 = true -> no_push mid2 = true ->
-  let s := run (init n) (pre ++ [FetchTracking c] ++ mid1 ++ [MergeLocal c] ++ mid2) in
+  no_commit_in_copy_window n (pre ++ [FetchTracking c] ++ mid1 ++ [TestLocal c; MergeLocal c] ++ mid2) = true ->
+  let s := run (init n) (pre ++ [FetchTracking c] ++ mid1 ++ [TestLocal c; MergeLocal c] ++ mid2) in
   push_outcome s c = PCreated \/ push_outcome s c = PUpdated \/ push_outcome s c = PNoLocal.
 Proof. exact no_reject_without_overlap. Qed.
 Print Assumptions C10_rejected_only_when_pushes_overlap.
@@ -69,7 +81,8 @@ Print Assumptions C10_rejected_only_when_pushes_overlap.
    clone has an uninterleaved FetchNotes somewhere (anything else may happen in between):
    the remote and every clone hold exactly the union of all writes *)
 Theorem C10_converge : forall (n : nat) (pre q1 q2 : list step),
-  single_writer_per_key pre -> no_commit q1 = true -> no_commit q2 = true ->
+  single_writer_per_key pre -> no_commit_in_copy_window n pre = true ->
+  no_commit q1 = true -> no_commit q2 = true ->
   (forall c, (c < n)%nat -> has_block (PushNotes c) q1) ->
   (forall c, (c < n)%nat -> has_block (FetchNotes c) q2) ->
   same_map (remote_map (run (init n) (pre ++ q1 ++ q2))) (writes n pre) /\
@@ -78,7 +91,7 @@ Proof. exact converge. Qed.
 Print Assumptions C10_converge.
 
 Theorem C10_converge_sequential : forall (n : nat) (pre : list step),
-  single_writer_per_key pre ->
+  single_writer_per_key pre -> no_commit_in_copy_window n pre = true ->
   let s := run (init n) (pre ++ flat_map PushNotes (seq 0 n) ++ flat_map FetchNotes (seq 0 n)) in
   same_map (remote_map s) (writes n pre) /\
   forall c, (c < n)%nat -> same_map (local_map s c) (writes n pre).
@@ -102,13 +115,42 @@ Theorem C10_race_needs_repush :
   Known_C10 race2 = true /\
   single_writer_per_key race2 /\
   fst (run_trace (init 2) race2)
-    = [None; None; None; None; None; None; Some PCreated; Some PRejected] /\
+    = [None; None; None; None; None; None; None; None; Some PCreated; Some PRejected] /\
   lookup 11 (local_map (run (init 2) race2) 1) = Some 101 /\
   lookup 11 (remote_map (run (init 2) race2)) = None /\
   lookup 11 (local_map (run (init 2) (race2 ++ FetchNotes 0 ++ FetchNotes 1)) 0) = None /\
   lookup 11 (remote_map (run (init 2) (race2 ++ PushNotes 1))) = Some 101.
 Proof. exact race_needs_repush. Qed.
 Print Assumptions C10_race_needs_repush.
+
+(* the order of the sub-steps the theorems are about, as read from the source *)
+Theorem C10_code_order : forall c,
+  PushNotes c = [FetchTracking c; TestLocal c; MergeLocal c; PushRef c] /\
+  FetchNotes c = [FetchTracking c; TestLocal c; MergeLocal c].
+Proof. exact (fun c => conj (PushNotes_eq c) (FetchNotes_eq c)). Qed.
+Print Assumptions C10_code_order.
+
+(* a commit of the SAME clone while its own push / fetch has its notes fetch in flight (before the
+   fetch lands, or right after it) is outside the copy window and its note is kept *)
+Theorem C10_commit_during_sync_safe : forall (n : nat) (pre : list step) (c : nat) k v, (c < n)%nat ->
+  no_commit_in_copy_window n pre = true -> pending_of (run (init n) pre) c = None ->
+  forall blk, In blk [PushNotes_commit_on_wire c k v; PushNotes_commit_after_fetch c k v;
+                      FetchNotes_commit_on_wire c k v; FetchNotes_commit_after_fetch c k v] ->
+  no_commit_in_copy_window n (pre ++ blk) = true /\
+  has_key k (local_map (run (init n) (pre ++ blk)) c) = true.
+Proof. exact commit_during_sync_safe. Qed.
+Print Assumptions C10_commit_during_sync_safe.
+
+(* inside the copy window the clone's own note is overwritten and lost everywhere, for good *)
+Theorem C10_copy_window_refuted :
+  no_commit_in_copy_window 2 window2 = false /\
+  single_writer_per_key window2 /\
+  lookup 11 (local_map (run (init 2) window2) 1) = None /\
+  (let s := run (init 2) (window2 ++ flat_map PushNotes (seq 0 2) ++ flat_map FetchNotes (seq 0 2)) in
+   lookup 11 (remote_map s) = None /\ lookup 11 (local_map s 0) = None /\
+   lookup 11 (local_map s 1) = None).
+Proof. exact copy_window_refuted. Qed.
+Print Assumptions C10_copy_window_refuted.
 
 (* multi-writer keys are outside the claim; what -s ours does is documented by an example *)
 Theorem C10_ours_example :
